@@ -226,6 +226,21 @@ def _(vm, a, ci):
     vm.ref_set(a[0], str_concat(vm, str_concat(vm, left, ins), right)); return UNIT
 
 
+@path('<impl str>::bytes')
+def _(vm, a, ci):
+    """UTF-8 bytes: exact for concrete characters and for symbolic single-byte (ASCII) characters; the bytes of a symbolic
+    multi-byte character are fresh values >= 0x80 (sound for ASCII / non-ASCII tests, which is what byte loops over text do)"""
+    s = _bounded(vm, S(vm, a[0])); out = []
+    from .std_iter import _widths
+    for c, w in zip(s.chars(), _widths(s)):
+        if isinstance(c, int): out += list(chr(c).encode('utf-8'))
+        elif w == 1: out.append(z3.Extract(7, 0, c))
+        else:
+            for k in range(w):
+                b = z3.BitVec(vm.fresh('byte'), 8); vm.assume(z3.UGE(b, 0x80)); vm.keep.append(b); out.append(b)
+    return It('list', out, 0)
+
+
 @path('String::truncate')
 def _(vm, a, ci):
     cur = S(vm, a[0]); n = a[1]
@@ -624,6 +639,24 @@ def _(vm, a, ci):
 
 
 # ---- char
+@path_rx(r'<impl u8>::(is_ascii\w*|to_ascii_lowercase|to_ascii_uppercase|eq_ignore_ascii_case|is_utf8_char_boundary)')
+def _(vm, a, ci):
+    """u8 ASCII predicates / case maps: the byte is widened to a code point and judged by the ASCII part of the char tables"""
+    m = ci.method; b = D(vm, a[0])
+    def wide(x): return x if isinstance(x, int) else z3.ZeroExt(24, x) if x.size() == 8 else x
+    c = wide(b)
+    if m == 'is_utf8_char_boundary': return (b < 128 or b >= 192) if isinstance(b, int) else z3.Or(z3.ULT(c, 128), z3.UGE(c, 192))
+    if m in ('to_ascii_lowercase', 'to_ascii_uppercase'):
+        r = chartab.case_map(vm, c, 'lower' in m, True)[0]
+        return r if isinstance(r, int) else z3.Extract(7, 0, r)
+    if m == 'eq_ignore_ascii_case':
+        d = wide(D(vm, a[1]))
+        return _ceq(chartab.case_map(vm, c, True, True)[0], chartab.case_map(vm, d, True, True)[0])
+    f = getattr(chartab, m, None)
+    if f is None: raise Unmodelled('u8::' + m)
+    return f(c)
+
+
 @path_rx(r'(?:char::methods::)?<impl char>::(is_\w+|to_ascii_lowercase|to_ascii_uppercase|to_lowercase|to_uppercase|len_utf8|to_digit|eq_ignore_ascii_case)')
 def _(vm, a, ci):
     m = ci.method; c = D(vm, a[0])
